@@ -354,6 +354,7 @@ static uint32_t srv_build(int srvidx, int fd, const sdns_query_t *q, const srv_p
     sdns_opt(o, 1232, ottl, cklen ? ck : NULL, cklen);
   }
   if (serial) {
+    sim_pktinfo[serial - 1].srv_cookie = (with_opt && cklen > 8);
     sim_pktinfo[serial - 1].rcode = (action == SA_BADCOOKIE) ? 23 : rcode;
     sim_pktinfo[serial - 1].tc    = (action == SA_TC);
   }
